@@ -20,17 +20,17 @@ type failure struct{ key, msg string }
 
 // runner owns one engine and logs every Schedule and every Handle.
 type runner struct {
-	p       *program
-	eng     *timing.SerialEngine
-	hooked  bool
-	steps   []step
-	info    map[uint64]*evInfo
-	nSched  int
-	pendPri map[uint64]int // scheduled-but-unhandled primaries per time
-	pending int
-	lastT   uint64
+	p        *program
+	eng      *timing.SerialEngine
+	hooked   bool
+	steps    []step
+	info     map[uint64]*evInfo
+	nSched   int
+	pendPri  map[uint64]int // scheduled-but-unhandled primaries per time
+	pending  int
+	lastT    uint64
 	lastFIFO map[[2]uint64]int // (time, class) -> schedIdx of the last handled event of the class
-	fails   []failure
+	fails    []failure
 
 	// hook bracket automaton: 0 idle, 1 after Before(uid), 2 after Handle(uid)
 	hookState int
